@@ -37,7 +37,7 @@ def gen(tier, rng, force_cases=False):
     for i in range(nexp):
         sw = R.Sweep(rng, with_cases=force_cases if force_cases else False, max_args=3, max_vals=3)
         split = sw.kind in (3, 4, 6, 7) and rng.random() < 0.4
-        sweeps.append((sw, "combo_runner", R.STRATEGIES[7 + i % 4], split, rng.random() < 0.25, "dict"))
+        sweeps.append((sw, "combo_runner", R.STRATEGIES[7 + i % 5], split, rng.random() < 0.25, "dict"))
     return sweeps
 
 
